@@ -1,5 +1,385 @@
 package main
 
-func (h *harness) corpus() error { return nil }
+import (
+	"bufio"
+	"encoding/json"
+	"fmt"
+	"math/rand"
+	"os"
+	"path/filepath"
+	"regexp"
+	"sort"
+	"strings"
+	"sync"
 
-func (h *harness) replay() error { return nil }
+	"github.com/brimdata/super/compiler/ast/dag"
+	"github.com/brimdata/super/zbuf"
+	"github.com/brimdata/super/ztest"
+
+	"verif/core"
+)
+
+// The repository's own programs: compiler/parser/valid.zed and every ztest with
+// a `zed:` program.  There is no reference semantics for them; the oracle is
+// optimized vs as analyzed only, as a sequence when the plan as analyzed is a
+// single ordered path and as a multiset otherwise.  Programs whose result is not
+// determined by the language (an order-sensitive operator or a stateful
+// expression downstream of fork/switch/summarize/join, sort without keys ...)
+// are skipped by a conservative static analysis of the plan as analyzed, and a
+// program whose plan as analyzed gives two different results on the same input
+// is skipped as well.
+
+type corpusProg struct {
+	Name  string
+	Zed   string
+	Input string // the test's own input (ZSON only), may be empty
+}
+
+func collectCorpus() ([]corpusProg, error) {
+	repo := core.RepoDir()
+	var out []corpusProg
+	f, err := os.Open(filepath.Join(repo, "compiler/parser/valid.zed"))
+	if err != nil {
+		return nil, err
+	}
+	sc := bufio.NewScanner(f)
+	n := 0
+	for sc.Scan() {
+		n++
+		if line := strings.TrimSpace(sc.Text()); line != "" {
+			out = append(out, corpusProg{Name: fmt.Sprintf("valid.zed:%d", n), Zed: line})
+		}
+	}
+	f.Close()
+	var files []string
+	filepath.WalkDir(repo, func(path string, d os.DirEntry, err error) error {
+		if err != nil {
+			return nil
+		}
+		if d.IsDir() && (d.Name() == ".git" || d.Name() == "node_modules") {
+			return filepath.SkipDir
+		}
+		if !d.IsDir() && strings.HasSuffix(path, ".yaml") && strings.Contains(path, "ztests") {
+			files = append(files, path)
+		}
+		return nil
+	})
+	sort.Strings(files)
+	for _, path := range files {
+		zt, err := ztest.FromYAMLFile(path)
+		if err != nil || zt.Zed == "" || zt.Skip != "" {
+			continue
+		}
+		rel, _ := filepath.Rel(repo, path)
+		p := corpusProg{Name: rel, Zed: zt.Zed}
+		if zt.InputFlags == "" && !zt.Vector {
+			p.Input = zt.Input
+		}
+		out = append(out, p)
+	}
+	return out, nil
+}
+
+var identRE = regexp.MustCompile(`[A-Za-z_][A-Za-z0-9_]*(\.[A-Za-z_][A-Za-z0-9_]*)*`)
+
+var zedKeywords = map[string]bool{}
+
+func init() {
+	for _, k := range strings.Fields(`this and or not in by with as on from file pool get over yield where sort head tail uniq fuse cut drop put rename
+		summarize count sum avg min max any collect union dcount fork switch case default pass join left right anti inner merge search
+		true false null limit every nulls first last desc asc const func op type is has len grep split lower upper typeof kind error
+		top sample shape cast crop fill order explode load output debug assert regexp regexp_replace string int64 uint64 float64 bool ip net time duration bytes
+		unflatten flatten nest_dotted quiet missing coalesce now bucket floor ceil round abs sqrt pow log trim join levenshtein replace hex base64 network_of cidr_match
+		map values keys compare under nameof typename fields parse_zson parse_uri strftime else`) {
+		zedKeywords[k] = true
+	}
+}
+
+var corpusVals = []string{"0", "1", "2", "-1", `"a"`, `"conn"`, "null", "1.5", "true", `"foo"`, "80", "1(uint64)"}
+
+// genInput builds records over the field names the program mentions.
+func genInput(zed string, rng *rand.Rand, n int) string {
+	seen := map[string]bool{}
+	var fields []string
+	for _, id := range identRE.FindAllString(zed, -1) {
+		top := strings.SplitN(id, ".", 2)[0]
+		if zedKeywords[top] || seen[top] || strings.Contains(id, ".") && seen[id] {
+			continue
+		}
+		seen[top] = true
+		fields = append(fields, id)
+		if len(fields) == 5 {
+			break
+		}
+	}
+	if len(fields) == 0 {
+		fields = []string{"a", "b"}
+	}
+	var b strings.Builder
+	for i := 0; i < n; i++ {
+		var fs []string
+		for _, f := range fields {
+			if rng.Intn(6) == 0 {
+				continue // missing
+			}
+			v := corpusVals[rng.Intn(len(corpusVals))]
+			if parts := strings.Split(f, "."); len(parts) > 1 {
+				s := v
+				for j := len(parts) - 1; j >= 1; j-- {
+					s = "{" + parts[j] + ":" + s + "}"
+				}
+				fs = append(fs, parts[0]+":"+s)
+			} else {
+				fs = append(fs, f+":"+v)
+			}
+		}
+		if len(fs) == 0 {
+			fs = []string{"zz:1"}
+		}
+		b.WriteString("{" + strings.Join(fs, ",") + "}\n")
+	}
+	return b.String()
+}
+
+// orderSafety classifies a plan as analyzed: mode "seq" (one ordered path), "bag"
+// (order undefined somewhere but nothing order-sensitive consumes it) or ""
+// (the language does not determine the result; skip).
+var safeAggs = map[string]bool{"count": true, "sum": true, "min": true, "max": true, "avg": true, "dcount": true, "and": true, "or": true}
+
+func hasStatefulExpr(op dag.Op) bool {
+	b, err := json.Marshal(op)
+	return err != nil || strings.Contains(string(b), `"kind":"Agg"`)
+}
+
+func classifySeq(seq dag.Seq, ordered bool) (bool, bool) {
+	safe := true
+	for _, op := range seq {
+		switch op := op.(type) {
+		case *dag.DefaultScan:
+			ordered = true
+		case *dag.Output, *dag.Pass, *dag.Drop:
+		case *dag.Filter, *dag.Cut, *dag.Put, *dag.Rename, *dag.Yield, *dag.Explode:
+			if hasStatefulExpr(op) && !ordered {
+				safe = false
+			}
+		case *dag.Head, *dag.Tail, *dag.Uniq, *dag.Top, *dag.Fuse, *dag.Shape:
+			if !ordered {
+				safe = false
+			}
+		case *dag.Sort:
+			if len(op.Args) == 0 || hasStatefulExpr(op) {
+				if !ordered {
+					safe = false
+				}
+			}
+			// stable on an ordered input; ties keep an undefined order undefined
+		case *dag.Summarize:
+			for _, a := range op.Aggs {
+				agg, ok := a.RHS.(*dag.Agg)
+				if !ok || !safeAggs[agg.Name] {
+					if !ordered {
+						safe = false
+					}
+				}
+			}
+			for _, k := range op.Keys {
+				if hasStatefulExprE(k.RHS) && !ordered {
+					safe = false
+				}
+			}
+			ordered = false
+		case *dag.Fork:
+			all := true
+			for _, p := range op.Paths {
+				o, s := classifySeq(p, ordered)
+				all = all && o
+				safe = safe && s
+			}
+			ordered = len(op.Paths) == 1 && all
+		case *dag.Switch:
+			if op.Expr != nil && hasStatefulExprE(op.Expr) && !ordered {
+				safe = false
+			}
+			all := true
+			for _, c := range op.Cases {
+				if c.Expr != nil && hasStatefulExprE(c.Expr) && !ordered {
+					safe = false
+				}
+				o, s := classifySeq(c.Path, ordered)
+				all = all && o
+				safe = safe && s
+			}
+			ordered = len(op.Cases) == 1 && all
+		case *dag.Scope:
+			o, s := classifySeq(op.Body, ordered)
+			ordered, safe = o, safe && s
+		case *dag.Over:
+			if hasStatefulExpr(&dag.Yield{Kind: "Yield", Exprs: op.Exprs}) && !ordered {
+				safe = false
+			}
+			if op.Body != nil {
+				o, s := classifySeq(op.Body, true)
+				ordered, safe = ordered && o, safe && s
+			}
+		case *dag.Join, *dag.Combine, *dag.Merge:
+			ordered = false
+		default:
+			return false, false
+		}
+	}
+	return ordered, safe
+}
+
+func hasStatefulExprE(e dag.Expr) bool {
+	b, err := json.Marshal(e)
+	return err != nil || strings.Contains(string(b), `"kind":"Agg"`)
+}
+
+func planMode(entry dag.Seq) string {
+	if len(entry) == 0 {
+		return ""
+	}
+	if _, ok := entry[0].(*dag.DefaultScan); !ok {
+		return "" // the program brings its own sources
+	}
+	ordered, safe := classifySeq(entry, true)
+	switch {
+	case !safe:
+		return ""
+	case ordered:
+		return "seq"
+	}
+	return "bag"
+}
+
+func (h *harness) evalCorpus(p corpusProg, in string, batch int) {
+	c := h.c
+	U := runProgram(h.ctx, p.Zed, runOpts{NoOptimize: true, Timeout: caseTimeout}, in)
+	if U.Err != nil || U.Mode == "" {
+		h.mu.Lock()
+		if U.Err != nil {
+			h.corpusSkipErr++
+		} else {
+			h.corpusSkipOrder++
+		}
+		h.mu.Unlock()
+		return
+	}
+	U2 := runProgram(h.ctx, p.Zed, runOpts{NoOptimize: true, Timeout: caseTimeout}, in)
+	if ok, _ := compare(U.Mode, U.Rows, U2.Rows); !ok || U2.Err != nil {
+		h.mu.Lock()
+		h.corpusSkipNondet++
+		h.mu.Unlock()
+		return
+	}
+	O := runProgram(h.ctx, p.Zed, runOpts{Timeout: caseTimeout}, in)
+	if isTimeout(O.Err) {
+		O = runProgram(h.ctx, p.Zed, runOpts{Timeout: confirmTimeout}, in)
+	}
+	c.Eval(fmt.Sprintf("corpus|%d|%s|%s", batch, p.Zed, in), U.Canon != O.Canon)
+	h.mu.Lock()
+	h.corpusChecked++
+	h.mu.Unlock()
+	w := witness{Kind: "corpus", Program: p.Zed, Input: in, Batch: batch, Mode: U.Mode, U: U.Rows, O: O.Rows, UErr: errStr(U.Err), OErr: errStr(O.Err), PlanU: U.Canon, PlanO: O.Canon}
+	if O.Err != nil {
+		c.Violate("corpus:"+p.Name+":error", fmt.Sprintf("%s: `%s` runs as analyzed but the optimized plan fails: %v", p.Name, p.Zed, O.Err), w)
+		return
+	}
+	if ok, why := compare(U.Mode, U.Rows, O.Rows); !ok {
+		c.Violate("corpus:"+p.Name, fmt.Sprintf("%s: `%s`: as analyzed %v, optimized %v: %s; optimized plan: %s", p.Name, p.Zed, short(U.Rows), short(O.Rows), why, O.Canon), w)
+	}
+}
+
+func (h *harness) corpus() error {
+	c := h.c
+	progs, err := collectCorpus()
+	if err != nil {
+		return err
+	}
+	c.Set("corpus_programs_total", len(progs))
+	rng := rand.New(rand.NewSource(c.Seed + 7))
+	if c.Quick() {
+		rng.Shuffle(len(progs), func(i, j int) { progs[i], progs[j] = progs[j], progs[i] })
+		if len(progs) > 260 {
+			progs = progs[:260]
+		}
+	}
+	type job struct {
+		p  corpusProg
+		in string
+	}
+	var jobs []job
+	for _, p := range progs {
+		if p.Input != "" {
+			jobs = append(jobs, job{p, p.Input})
+		}
+		jobs = append(jobs, job{p, genInput(p.Zed, rng, 7)})
+		if !c.Quick() {
+			jobs = append(jobs, job{p, genInput(p.Zed, rng, 12)})
+		}
+	}
+	for _, batch := range []int{100, 2} {
+		zbuf.PullerBatchValues = batch
+		var wg sync.WaitGroup
+		ch := make(chan job, 64)
+		for i := 0; i < 12; i++ {
+			wg.Add(1)
+			go func() {
+				defer wg.Done()
+				for j := range ch {
+					h.evalCorpus(j.p, j.in, batch)
+				}
+			}()
+		}
+		for i, j := range jobs {
+			if batch == 2 && c.Quick() && i%4 != int(c.Seed%4) {
+				continue
+			}
+			ch <- j
+		}
+		close(ch)
+		wg.Wait()
+	}
+	zbuf.PullerBatchValues = 100
+	c.Set("corpus_programs_used", len(progs))
+	c.Set("corpus_runs_compared", h.corpusChecked)
+	c.Set("corpus_skipped_error_or_no_reader", h.corpusSkipErr)
+	c.Set("corpus_skipped_order_undetermined", h.corpusSkipOrder)
+	c.Set("corpus_skipped_nondeterministic", h.corpusSkipNondet)
+	c.Logf("corpus: %d programs, %d runs compared (%d skipped: error/no reader, %d: result not determined, %d: nondeterministic)",
+		len(progs), h.corpusChecked, h.corpusSkipErr, h.corpusSkipOrder, h.corpusSkipNondet)
+	if h.corpusChecked == 0 {
+		c.Inconclusive("no corpus program could be compared")
+	}
+	return nil
+}
+
+// replay re-runs one witness.
+func (h *harness) replay() error {
+	var w witness
+	sig, err := h.c.ReplayWitness(&w)
+	if err != nil {
+		return err
+	}
+	if w.Batch > 0 {
+		zbuf.PullerBatchValues = w.Batch
+	}
+	U := runProgram(h.ctx, w.Program, runOpts{NoOptimize: true, SortKey: w.Sk}, w.Input)
+	O := runProgram(h.ctx, w.Program, runOpts{SortKey: w.Sk, Timeout: confirmTimeout}, w.Input)
+	fmt.Printf("program: %s\nsort key: %q  batch: %d  mode: %s\ninput:\n%s", w.Program, w.Sk, w.Batch, w.Mode, w.Input)
+	fmt.Printf("as analyzed  [%s] err=%v\n  %v\noptimized    [%s] err=%v\n  %v\n", U.Canon, U.Err, U.Rows, O.Canon, O.Err, O.Rows)
+	mode := w.Mode
+	if mode == "" {
+		mode = "bag"
+	}
+	if U.Err == nil && O.Err != nil {
+		h.c.Violate(sig, fmt.Sprintf("replayed: the optimized plan fails: %v", O.Err), w)
+		return nil
+	}
+	if ok, why := compare(mode, U.Rows, O.Rows); !ok {
+		h.c.Violate(sig, "replayed: "+why, w)
+	} else {
+		fmt.Println("the optimized plan and the plan as analyzed agree on this witness now")
+	}
+	return nil
+}
